@@ -35,6 +35,7 @@ func runC15(c *Ctx, r *Report) {
 	c15R7(c, r, "C15.R7")
 	c15MapsMade(c, r, "C15.R19")
 	c15AsymmetricCodec(c, r, "C15.R20")
+	c11Provision(c, r, "C15.R21") // "that JSON loads and provisions": the dial address is parsed as the replacer resolves it (placeholders known at load time may stand for the port or the whole address)
 	c15R8(c, r, "C15.R8")
 	c15R9(c, r, "C15.R9")
 	c15R10(c, r, "C15.R10")
